@@ -1274,6 +1274,19 @@ impl<Front: SocketHandler + std::fmt::Debug, L: ListenerHandler + L7ListenerHand
                 counter += 1;
                 if counter >= MAX_LOOP_ITERATIONS {
                     incr!(names::http::INFINITE_LOOP_ERROR);
+                    #[cfg(sozu_verif)]
+                    crate::verif::emit_s(
+                        "mux_loop_budget",
+                        &[("front", self.frontend_token.0 as i64)],
+                        &[(
+                            "peer",
+                            self.frontend
+                                .socket()
+                                .peer_addr()
+                                .map(|a| a.to_string())
+                                .unwrap_or_default(),
+                        )],
+                    );
                     if self.frontend.has_pending_write() {
                         debug!(
                             "{} Mux loop budget exhausted while frontend flush pending: {:?}",
